@@ -163,6 +163,8 @@ Proof.
   - simpl. auto.
   - unfold notify_all. cbv zeta. cbn [cur set_workers].
     destruct (cur s) eqn:PC; simpl in H; try contradiction; cbn; rewrite ?PC; simpl; auto.
+  - unfold notify_at. destruct (find_kid p (kids s)); auto. destruct (_ && _); auto.
+    cbn [cur set_workers]. destruct (cur s) eqn:PC; simpl in H; try contradiction; cbn; rewrite PC; simpl; auto.
 Qed.
 
 Lemma halting_run : forall x ls s, halting x (cur s) -> halting x (cur (run s ls)) /\ forks (run s ls) = forks s.
